@@ -1,4 +1,4 @@
-import Lemmas.ExtractRepro
+import Lemmas.ExtractFresh
 /-! # C19 — archive extraction reproduces the archive inside the destination only
 
 All theorems are about the definitions the model driver `drv_c19` executes (`Ex.tarExtract`, `Ex.zipExtract`,
@@ -137,28 +137,148 @@ theorem entry_reproduced (fs : FS) (root : P) (hr : GoodPath root) (hroot : root
     (hio : InoOK fs) (hok : (tarOne fs root mask e).2 = true) : Post root mask e fs (tarOne fs root mask e).1 :=
   tarOne_post fs root hr hroot mask e hio hok
 
-/-- full reproduction statement (kept visible): for an archive whose cleaned entry paths are pairwise distinct,
-    extracted without error into an empty or missing destination, every entry is present at the end exactly as
-    recorded -/
-def extract_reproduces_Statement : Prop :=
-  ∀ (root : P) (mask : Nat) (es : List Entry) (fs : FS), GoodPath root → root ≠ [] → WF fs → InoOK fs →
-    (∀ q, root <+: q → q ≠ root → fs.get q = none) →
-    (es.map (fun e => cleanJoin root e.name)).Pairwise (· ≠ ·) →
-    (tarExtract fs root mask es).2 = true →
-    ∀ e ∈ es, Final root mask e (tarExtract fs root mask es).1
-
-/-- *reproduction, whole archive* (partial: tar loop only — the zip loop shares `writeFile`/`mkdirAll`/`symlinkAt`
-    and the same argument applies, it is covered by the correspondence run only; and the no-conflict condition is
-    semantic instead of syntactic): if the
-    extraction returns no error and no regular-file entry found its path already present (`FreshRun`: no duplicates, no
-    overwrite through a hard link), then at the end every entry of the archive is present as recorded: files with
-    their complete payload and masked permissions, directories, symbolic links with their targets, hard links sharing
-    the inode of their target -/
+/-- *reproduction, whole archive, semantic condition* (tar loop; any entry order, any type flags, destination
+    existing or not): if the extraction returns no error and no regular-file entry found its path already present
+    (`FreshRun`: no duplicates, no overwrite through a hard link), then at the end every entry of the archive is
+    present as recorded: files with their complete payload and masked permissions, directories, symbolic links with
+    their targets, hard links sharing the inode of their target.  `extract_reproduces_distinct` discharges `FreshRun`
+    from a syntactic condition, `extract_reproduces` is the exact statement for well-formed archives. -/
 theorem extract_reproduces_partial (root : P) (mask : Nat) (es : List Entry) (fs : FS) (hr : GoodPath root)
     (hroot : root ≠ []) (hio : InoOK fs) (hfresh : FreshRun root mask fs es)
     (hok : (tarExtract fs root mask es).2 = true) :
     ∀ e ∈ es, Final root mask e (tarExtract fs root mask es).1 :=
   tar_reproduces root mask hr hroot es fs hio hfresh hok
+
+/-- *the syntactic condition implies the semantic one*: for an archive whose cleaned entry paths are pairwise
+    distinct, extracted without error into a destination that is empty or missing, no regular-file entry ever finds
+    its path present (files are only created at entry paths) -/
+theorem distinct_paths_fresh (root : P) (hr : GoodPath root) (mask : Nat) (es : List Entry) (fs : FS)
+    (hempty : ∀ q, root <+: q → q ≠ root → fs.get q = none)
+    (hdist : (es.map (fun e => cleanJoin root e.name)).Pairwise (· ≠ ·))
+    (hok : (tarExtract fs root mask es).2 = true) : FreshRun root mask fs es := by
+  refine freshRun_of_distinct root hr mask es [] fs ?_ (by simpa using List.pairwise_map.mp hdist) hok
+  intro q hq ino hg
+  rw [hempty q hq.prefix hq.ne] at hg; cases hg
+
+/-- *reproduction, any order* (tar; this is the statement that was kept open as `extract_reproduces_Statement`): for
+    an archive whose cleaned entry paths are pairwise distinct — entries in any order, parents after children, skipped
+    type flags, names with `..` that stay inside — extracted without error into an empty or missing destination, every
+    entry is present at the end as recorded (`Final`; a directory entry that comes after its children keeps the mode
+    `MkdirAll` gave it, which is why `Final` does not fix directory modes — `extract_reproduces` does, for archives
+    that list parents first) -/
+theorem extract_reproduces_distinct (root : P) (mask : Nat) (es : List Entry) (fs : FS) (hr : GoodPath root)
+    (hroot : root ≠ []) (hio : InoOK fs) (hempty : ∀ q, root <+: q → q ≠ root → fs.get q = none)
+    (hdist : (es.map (fun e => cleanJoin root e.name)).Pairwise (· ≠ ·))
+    (hok : (tarExtract fs root mask es).2 = true) :
+    ∀ e ∈ es, Final root mask e (tarExtract fs root mask es).1 :=
+  tar_reproduces root mask hr hroot es fs hio (distinct_paths_fresh root hr mask es fs hempty hdist hok) hok
+
+/-- *reproduction, exactly* (tar — first clause of the property).  Hypotheses, all syntactic (about the archive and
+    the text of the root) except the state of the destination:
+    * the destination is an existing directory with nothing below it, in a tree where every node's parent is a
+      directory (`WF`; so the ancestors of the destination are real directories) and every file has an inode;
+    * `hentry`: every entry is a regular file, directory, symbolic link or hard link, its name cleans to a proper
+      descendant of the root, its payload is complete, a symbolic link's target is not empty;
+    * `horder`, for an earlier entry `a` and a later entry `b`: `b`'s path is not `a`'s path nor an ancestor of it (no
+      duplicates; parents that are listed come first, all others are implied), and `b` is beneath `a` only if `a` is
+      a directory entry (nothing beneath a link or file entry);
+    * `hlinks`: a hard link's target cleans to the path of an earlier regular-file or hard-link entry.
+    Conclusion: the run returns no error, and below the destination the final tree is exactly the archive's tree —
+    every directory entry with `perm mode & mask`, every regular file with its complete payload and `perm mode & mask`,
+    every symbolic link with its target verbatim, every hard link on the inode of its target; a path strictly below
+    the destination exists *iff* it is the path of an entry or an ancestor of one (nothing else appears); a parent
+    that is not itself an entry is a directory with the mode `MkdirAll` gave it when the first entry beneath it was
+    extracted (`0o755 & mask`, or that entry's `perm mode & mask` if it is a directory entry: `os.MkdirAll(path, mode)`
+    uses one mode for the whole chain); different regular-file entries are different inodes (the only sharing is the
+    recorded one); the destination directory itself is unchanged. -/
+theorem extract_reproduces (root : P) (hr : GoodPath root) (mask : Nat) (es : List Entry) (fs : FS)
+    (hw : WF fs) (hio : InoOK fs) (hdst : ∃ m, fs.get root = some (.dir m))
+    (hempty : ∀ c t, fs.get (root ++ c :: t) = none)
+    (hentry : ∀ e ∈ es, (∃ c t, cleanJoin root e.name = root ++ c :: t) ∧
+      ((e.kind = .reg ∨ e.kind = .dir ∨ e.kind = .symlink ∨ e.kind = .link) ∧ e.short = false ∧
+       (e.kind = .symlink → e.link ≠ [])))
+    (horder : es.Pairwise (fun a b => ¬ cleanJoin root b.name <+: cleanJoin root a.name ∧
+      (cleanJoin root a.name <+: cleanJoin root b.name → a.kind = .dir)))
+    (hlinks : ∀ l1 e l2, es = l1 ++ e :: l2 → e.kind = .link →
+      ∃ t ∈ l1, (t.kind = .reg ∨ t.kind = .link) ∧ cleanJoin root t.name = cleanJoin root e.link) :
+    (tarExtract fs root mask es).2 = true ∧
+    (∀ e ∈ es, e.kind = .dir →
+      (tarExtract fs root mask es).1.get (cleanJoin root e.name) = some (.dir (perm e.mode &&& mask))) ∧
+    (∀ e ∈ es, e.kind = .reg → ∃ ino nd,
+      (tarExtract fs root mask es).1.get (cleanJoin root e.name) = some (.file ino) ∧
+      (tarExtract fs root mask es).1.inodes[ino]? = some nd ∧ nd.data = e.data ∧ nd.mode = perm e.mode &&& mask) ∧
+    (∀ e ∈ es, e.kind = .symlink →
+      (tarExtract fs root mask es).1.get (cleanJoin root e.name) = some (.symlink e.link)) ∧
+    (∀ e ∈ es, e.kind = .link → ∃ ino,
+      (tarExtract fs root mask es).1.get (cleanJoin root e.name) = some (.file ino) ∧
+      (tarExtract fs root mask es).1.get (cleanJoin root e.link) = some (.file ino)) ∧
+    (∀ c t, (tarExtract fs root mask es).1.get (root ++ c :: t) ≠ none ↔
+      ∃ e ∈ es, (root ++ c :: t) <+: cleanJoin root e.name) ∧
+    (∀ l1 e l2, es = l1 ++ e :: l2 → ∀ c t, (root ++ c :: t) <+: cleanJoin root e.name →
+      root ++ c :: t ≠ cleanJoin root e.name → (∀ e' ∈ l1, ¬ (root ++ c :: t) <+: cleanJoin root e'.name) →
+      (tarExtract fs root mask es).1.get (root ++ c :: t) =
+        some (.dir ((if e.kind = .dir then perm e.mode else 0o755) &&& mask))) ∧
+    es.Pairwise (fun a b => a.kind = .reg → b.kind = .reg →
+      (tarExtract fs root mask es).1.get (cleanJoin root a.name) ≠
+        (tarExtract fs root mask es).1.get (cleanJoin root b.name)) ∧
+    (tarExtract fs root mask es).1.get root = fs.get root := by
+  obtain ⟨hok, hex⟩ := tar_exact root hr mask es fs ⟨hw, hio, hdst, fun q ⟨c, t, e⟩ => e ▸ hempty c t⟩
+    ⟨hentry, horder, hlinks⟩
+  obtain ⟨m0, hm0⟩ := hdst
+  exact reproduced_spelled root mask es _ hok hex
+    (by rw [hm0]; exact (extract_monotone root hr mask es fs root _ hm0).1)
+
+/-- *reproduction, exactly* (zip).  The entries carry the kind zip `ExtractWithMask` gives them (`zipKind`: symbolic
+    link if the mode has the symlink bit — the payload is the target —, else directory if the mode has the directory
+    bit or the name ends in a slash, else regular file; `zipKind_total` says these are the only three).  Same
+    hypotheses and conclusion as `extract_reproduces`, without hard links (the zip extractor has none). -/
+theorem extract_reproduces_zip (root : P) (hr : GoodPath root) (mask : Nat) (es : List Entry) (fs : FS)
+    (hw : WF fs) (hio : InoOK fs) (hdst : ∃ m, fs.get root = some (.dir m))
+    (hempty : ∀ c t, fs.get (root ++ c :: t) = none)
+    (hentry : ∀ e ∈ es, (∃ c t, cleanJoin root e.name = root ++ c :: t) ∧
+      ((e.kind = .reg ∨ e.kind = .dir ∨ e.kind = .symlink) ∧ e.short = false ∧ (e.kind = .symlink → e.link ≠ [])))
+    (horder : es.Pairwise (fun a b => ¬ cleanJoin root b.name <+: cleanJoin root a.name ∧
+      (cleanJoin root a.name <+: cleanJoin root b.name → a.kind = .dir))) :
+    (zipExtract fs root mask es).2 = true ∧
+    (∀ e ∈ es, e.kind = .dir →
+      (zipExtract fs root mask es).1.get (cleanJoin root e.name) = some (.dir (perm e.mode &&& mask))) ∧
+    (∀ e ∈ es, e.kind = .reg → ∃ ino nd,
+      (zipExtract fs root mask es).1.get (cleanJoin root e.name) = some (.file ino) ∧
+      (zipExtract fs root mask es).1.inodes[ino]? = some nd ∧ nd.data = e.data ∧ nd.mode = perm e.mode &&& mask) ∧
+    (∀ e ∈ es, e.kind = .symlink →
+      (zipExtract fs root mask es).1.get (cleanJoin root e.name) = some (.symlink e.link)) ∧
+    (∀ e ∈ es, e.kind = .link → ∃ ino,
+      (zipExtract fs root mask es).1.get (cleanJoin root e.name) = some (.file ino) ∧
+      (zipExtract fs root mask es).1.get (cleanJoin root e.link) = some (.file ino)) ∧
+    (∀ c t, (zipExtract fs root mask es).1.get (root ++ c :: t) ≠ none ↔
+      ∃ e ∈ es, (root ++ c :: t) <+: cleanJoin root e.name) ∧
+    (∀ l1 e l2, es = l1 ++ e :: l2 → ∀ c t, (root ++ c :: t) <+: cleanJoin root e.name →
+      root ++ c :: t ≠ cleanJoin root e.name → (∀ e' ∈ l1, ¬ (root ++ c :: t) <+: cleanJoin root e'.name) →
+      (zipExtract fs root mask es).1.get (root ++ c :: t) =
+        some (.dir ((if e.kind = .dir then perm e.mode else 0o755) &&& mask))) ∧
+    es.Pairwise (fun a b => a.kind = .reg → b.kind = .reg →
+      (zipExtract fs root mask es).1.get (cleanJoin root a.name) ≠
+        (zipExtract fs root mask es).1.get (cleanJoin root b.name)) ∧
+    (zipExtract fs root mask es).1.get root = fs.get root := by
+  obtain ⟨hok, hex⟩ := zip_exact root hr mask es fs ⟨hw, hio, hdst, fun q ⟨c, t, e⟩ => e ▸ hempty c t⟩
+    hentry horder
+  obtain ⟨m0, hm0⟩ := hdst
+  exact reproduced_spelled root mask es _ hok hex
+    (by rw [hm0]; exact (extract_monotone root hr mask es fs root _ hm0).2)
+
+/-- the classification of zip entries yields only the three kinds `extract_reproduces_zip` speaks about -/
+theorem zipKind_total (symBit dirBit : Bool) (name : List Nat) :
+    zipKind symBit dirBit name = .reg ∨ zipKind symBit dirBit name = .dir ∨ zipKind symBit dirBit name = .symlink :=
+  zipKind_cases symBit dirBit name
+
+/-- *when an error is returned* (both loops): the run returns an error iff some entry's iteration fails on the tree
+    its predecessors left — the entries before it were all extracted, none after it is looked at -/
+theorem extract_error_iff (root : P) (mask : Nat) (es : List Entry) (fs : FS) :
+    ((tarExtract fs root mask es).2 = false ↔ ∃ es1 e es2 fs1, es = es1 ++ e :: es2 ∧
+      tarExtract fs root mask es1 = (fs1, true) ∧ (tarOne fs1 root mask e).2 = false) ∧
+    ((zipExtract fs root mask es).2 = false ↔ ∃ es1 e es2 fs1, es = es1 ++ e :: es2 ∧
+      zipExtract fs root mask es1 = (fs1, true) ∧ (zipOne fs1 root mask e).2 = false) :=
+  ⟨extractWith_ok_iff _ es fs, extractWith_ok_iff _ es fs⟩
 
 /-! ### the hypotheses are satisfiable, the theorems are not vacuous -/
 
